@@ -35,14 +35,17 @@ META = {
   "neighbour status x orientation, plus the initial fill); weight plumbing (_get_rate_functions_, edgeweight/nodeweight, "
   "weighted flag <=> label); _ListDict_ invariants; fast_SIR's forwarding, queue discipline, handler scheduling guards, the "
   "binomial/truncated-exponential helper's shape, lock-step +-1 rows, and the full-data hand-off of the event-driven path "
-  "(histories built only from executed events).",
+  "(histories built only from executed events, rebuilt per node by _transform_to_node_history_), the requested initial condition "
+  "is the one used (None-tests, never truthiness), a self-loop never creates an I-S link, and every event runs to the end of "
+  "the loop body (no `continue` past the clock).",
   "Not decided: that binomial + truncated exponential equals independent exponential clocks, any distributional equality, numeric rates.",
   "ast: symbolic rate expansion, exhaustive abstract case analysis of incremental set maintenance (R11), call-binding (R1), control-context facts (H-guard), class-invariant rules (R12)"),
  "C02": _m(
   "Same rate/selection consistency and exhaustive I-S link analysis for Gillespie_SIS including re-insertion of (nbr, n) links "
   "on recovery; for fast_SIS: recovery time assigned on every path before scheduling, transmission only before the source's "
   "recovery, re-scheduling of the (source, target) pair on every path (also when the target was already infected), a FRESH "
-  "exponential after the target's recovery (memorylessness), role binding of queued events, queue discipline, +-1 rows.",
+  "exponential after the target's recovery (memorylessness), role binding of queued events, queue discipline, +-1 rows; the "
+  "requested initial set is the one used; a self-loop never creates an I-S link; no `continue` past the clock.",
   "Not decided: the memorylessness argument itself and all distributional content.",
   "ast: symbolic rate expansion, R11 case analysis, handler guard/role rules over control-context facts, R1, R13, R9"),
  "C03": _m(
@@ -59,7 +62,8 @@ META = {
   "G.order() (linear normal form), first time is tmin, synthetic initial rows are sliced off by the number enqueued, every "
   "reported time is dominated by t<tmax / passes myQueue.add's `time < tmax`, every expovariate rate is guarded against 0, "
   "no flag combination of a simulator entry point uses None or an unbound name, and in Gillespie_simple_contagion the "
-  "move applied is the chosen transition's (candidate sets guarded by exactly the statuses of their key: no stale candidate).",
+  "move applied is the chosen transition's (candidate sets guarded by exactly the statuses of their key: no stale candidate); "
+  "in Gillespie_SIR/SIS the I-S link set is exact (R11, incl. self-loops), so no event fires on a non-susceptible node.",
   "Not decided: monotonicity of time (non-negativity of run-time delays), termination with I=0.",
   "ast: path enumeration through event blocks (R9), control-context domination (R13, R17), flag-enumerating abstract interpreter (R2/R3)"),
  "C05": _m(
@@ -77,7 +81,9 @@ META = {
   "symbolically); initial vector, right-hand-side unpacking, derivative vector and solution unpacking agree in order and "
   "offsets for all 19+ solver/rhs pairs; wrappers forward same-named parameters; degree-class initial arrays are filled for "
   "the node/edge whose statuses name them; no None use or unbound name on any combination of optional arguments (all "
-  "assignments enumerated, callee bodies entered).",
+  "assignments enumerated, callee bodies entered); list-or-array arguments are converted before arithmetic (ARR); the *_pure_IC "
+  "indicator arrays mark exactly the requested sets (alias-aware taint, ICP); with a nodelist in scope positional data is built "
+  "over nodelist, never in graph order (ORD).",
   "Not decided: solver tolerance, bounds [0,N], monotonicity, documented order of return tuples (docstrings are inconsistent), array shapes.",
   "ast: flag-enumerating abstract interpreter (R2/R3), linear normaliser (CONS), layout agreement by offset evaluation (R4), call-binding (R1/R16w), role rules"),
  "C09": _m(
@@ -118,7 +124,8 @@ META = {
   "_process_trans_SIS_nonMarkov_: first attempt enqueued and exactly the complement slice [1:] carried, at both sites; "
   "attempts inside the target's infectious period dropped only under status[v]=='I'; remaining attempts re-queued on every "
   "path (outside the infection block) with the same (source, target); adapter tuple binds the user functions' args without "
-  "crossing; queue discipline; +-1 rows.",
+  "crossing; queue discipline; +-1 rows; per-node histories rebuilt by _transform_to_node_history_ (HIST); the requested "
+  "initial set is the one used (TRUTHY, R10a/b).",
   "Not decided: equality with the reference history; ordering of user delay lists.",
   "ast: attempt-chaining rules over reaching definitions (H-chain), role binding, protocol binding (H-proto), R13, R9"),
  "C14": _m(
@@ -126,14 +133,15 @@ META = {
   "sets) subscripts anything but a node-keyed map / graph view, no position subscripts a node-keyed map, adjacency matrices "
   "are built in nodelist order wherever a nodelist is in scope, nodelist is forwarded by wrappers, and degree-class arrays are "
   "indexed by the degree of the node whose status names them; every loop that fixes the position of a degree class in a packed "
-  "state vector uses one order on both sides (R4o); a node label is never used as a truth value (TRUTHY) or compared by identity.",
+  "state vector uses one order on both sides (R4o); a node label is never used as a truth value (TRUTHY), compared by identity, "
+  "or put into a numpy array / numpy set function (R6n); with a nodelist in scope no positional sequence is built in graph order (ORD).",
   "Not decided: floating-point rounding under re-ordering.",
   "ast: node/position kind inference (R6), role rules for degree-class arrays, layout-order agreement (R4o), call-binding for nodelist, TRUTHY/IDENT"),
  "C15": _m(
   "Gillespie_complex_contagion: loop runs exactly while total_weight()>0 and t<tmax; clock is Exp(total_weight()) under a >0 "
   "guard before the loop and after every event; select, ask the chooser on pre-event statuses, write; the changed node and "
   "every member of get_influence_set(G,node,status,parameters) are re-rated unconditionally with rate_function on the new "
-  "statuses between the write and the clock; +-1 data rows; _ListDict_ insert/remove semantics (R12).",
+  "statuses between the write and the clock; no `continue` skips that tail; +-1 data rows; _ListDict_ insert/remove semantics (R12).",
   "Not decided: adequacy of the user's influence set (assumed by the property).",
   "ast: ordering and must-pass-through rules on the loop body (R11c), R12, R9"),
  "C16": _m(
@@ -154,7 +162,8 @@ META = {
   "Who-may-draw: only module-level random.* / legacy np.random.* (no private generators, re-seeding, time/hash/id/os entropy, "
   "entropy imports; positive fixture must fire); no iteration/pop/list() over a set in the continuous-time simulators and what "
   "they reach (set algebra on keys views included); selection lists sorted(); no draw control dependent on return_full_data; "
-  "full-data hand-off reads only executed events; no simulator modifies its arguments (a repeated call sees the same inputs).",
+  "full-data hand-off reads only executed events; no simulator modifies its arguments (a repeated call sees the same inputs); no "
+  "state survives a call (no allocating default argument, no mutable class-level attribute: STATE).",
   "Not decided: byte equality across processes (a two-execution property).",
   "ast: forbidden-source scan with positive fixture (R7a), container-kind inference for set iteration (R7b), control dependence (R7c), argument-effect analysis (R5)"),
  "C19": _m(
@@ -162,7 +171,7 @@ META = {
   "object that may alias one of its arguments, directly or through any package function, queue handler or ODE right-hand "
   "side it calls (flow-sensitive alias walk: same / view; bottom-up effect summaries to a fixpoint); no global statements; a "
   "mapping of defaultdict rows that the package itself produces (get_Pnk) is read only with keys of the row read (R5d: a miss "
-  "would insert into the caller's object).",
+  "would insert into the caller's object); no allocating default argument or mutable class attribute (STATE).",
   "Not decided: 'returns identical results' beyond absence of effects and hidden state.",
   "ast: interprocedural argument-effect analysis (R5), read-inserts rule for defaultdict rows (R5d)"),
  "C20": _m(
